@@ -2,7 +2,7 @@
    Each edit of the model on [encode xs] is the same edit on the code list xs; since the result is
    again of the form [encode _], the statement lifts to every finite history by composition. *)
 From Coq Require Import List NArith Bool Arith.
-From BioSeq Require Import Bits Codec Tables SeqModel SeqProofs History VM Refine.
+From BioSeq Require Import Bits Codec Tables SeqModel SeqProofs History VM Refine Nested Frame.
 Import ListNotations.
 
 Theorem C06_push : forall (C : codec) (xs : list N) (x : N),
@@ -101,6 +101,39 @@ Theorem C06_build_profiles_agree :
   VM.run C true cvi cvt ic tc ac stdt stdc ops = VM.run C false cvi cvt ic tc ac stdt stdc ops.
 Proof. exact profiles_agree. Qed.
 
+(* "edits never disturb symbols outside the edited region", outright: every edit is a splice at a
+   position p removing d symbols and inserting ins, all read off the operation ([region]); the
+   first p symbols keep value and place, those from p + d on keep their value and move by
+   |ins| - d, the inserted ones are exactly ins, the length changes by |ins| - d *)
+Theorem C06_edit_disturbs_nothing_outside_region :
+  forall (xs : list N) (o : eop) (ys : list N),
+  lstep xs o = Some ys ->
+  match region xs o with
+  | (p, d, ins) =>
+      p + d <= length xs /\
+      length ys + d = length xs + length ins /\
+      (forall i, i < p -> nth i ys 0%N = nth i xs 0%N) /\
+      (forall j, j < length ins -> nth (p + j) ys 0%N = nth j ins 0%N) /\
+      (forall j, nth (p + length ins + j) ys 0%N = nth (p + d + j) xs 0%N)
+  end.
+Proof. exact edit_disturbs_nothing_outside_region. Qed.
+
+(* ... and at the bit level after ANY history: the next edit leaves the packed sequence equal to
+   the packing of that splice, in both build profiles *)
+Theorem C06_next_edit_is_splice_after_any_history :
+  forall (C : codec) (dbg : bool), codec_ok C ->
+  forall (ops : list eop) (o : eop) (xs ys zs : list N),
+  lrun xs ops = Some ys -> lstep ys o = Some zs ->
+  match region ys o with
+  | (p, d, ins) =>
+      p + d <= length ys /\
+      mrun C dbg (encode (c_bits C) xs) (ops ++ [o]) =
+        Some (encode (c_bits C) (firstn p ys ++ ins ++ skipn (p + d) ys)) /\
+      (forall i, i < p -> nth i zs 0%N = nth i ys 0%N) /\
+      (forall j, nth (p + length ins + j) zs 0%N = nth (p + d + j) ys 0%N)
+  end.
+Proof. exact next_edit_is_splice_after_any_history. Qed.
+
 (* non-vacuity: a concrete history *)
 Example C06_history_example :
   lrun [1; 2; 3]%N [EPush 0%N; EInsert 1 [3; 3]%N; ERemove 0 0 2; ETruncate 3; EPrepend [2]%N]
@@ -121,3 +154,5 @@ Print Assumptions C06_history_length_and_symbols.
 Print Assumptions C06_vm_refines_list_machine.
 Print Assumptions C06_insert_beyond_end_panics_in_any_history.
 Print Assumptions C06_build_profiles_agree.
+Print Assumptions C06_edit_disturbs_nothing_outside_region.
+Print Assumptions C06_next_edit_is_splice_after_any_history.
